@@ -5,16 +5,22 @@
 (* every clock advance, so that a behaviour is a schedule for real threads. *)
 EXTENDS Breaker, Json
 VARIABLES h,
-          raced      \* some thread read the clock, and then a last-failure time later than that reading
-HInit == Init /\ h = << >> /\ raced = FALSE
+          raced,     \* some thread read the clock, and then a last-failure time later than that reading
+          cycle      \* how far through an outage cycle the behaviour got: 0 nothing, 1 opened, 2 recovered (closed again
+                     \* from half-open), 3 a failure was counted after the recovery
+HInit == Init /\ h = << >> /\ raced = FALSE /\ cycle = 0
 HStep == \E t \in Thread :
             /\ Step(t)
             /\ h' = Append(h, [t |-> t, at |-> pc[t], k |-> op'[t], nxt |-> pc'[t],
                                r |-> IF pc'[t] = "idle" THEN ret'[t] ELSE "-", clock |-> clock])
             /\ raced' = (raced \/ (pc[t] \in {"cb.allow.load_lft", "cb.est.load_lft"} /\ loc[t].now < lft))
-HTick == \E d \in {1, Timeout} : Tick(d) /\ h' = Append(h, [tick |-> d, clock |-> clock']) /\ UNCHANGED raced
+            /\ cycle' = IF cycle = 0 /\ state' = "open" THEN 1
+                        ELSE IF cycle = 1 /\ state = "half" /\ state' = "closed" THEN 2
+                        ELSE IF cycle = 2 /\ pc[t] = "cb.fail.store_lft" THEN 3
+                        ELSE cycle
+HTick == \E d \in {1, Timeout} : Tick(d) /\ h' = Append(h, [tick |-> d, clock |-> clock']) /\ UNCHANGED <<raced, cycle>>
 HNext == HStep \/ HTick
-View == <<state, fc, lft, hocc, hosc, clock, pc, op, loc, nops, probes, incs, underflow, openedEarly, lateReset, raced>>
+View == <<state, fc, lft, hocc, hosc, clock, pc, op, loc, nops, probes, incs, underflow, openedEarly, lateReset, raced, cycle>>
 AllDone == \A t \in Thread : pc[t] = "idle" /\ nops[t] = MaxOps
 Final == [state |-> state, fc |-> fc, hocc |-> hocc, hosc |-> hosc]
 Emit == AllDone => PrintT(<<"REPLAY", ToJson([steps |-> h, final |-> Final, probes |-> probes])>>)
